@@ -120,3 +120,30 @@ ob(name='world.seqdtor_then_call.calls_continue', kind='BL', props=['C14'], unit
    variants=world_variants(2, 1), unwind=10, timeout=900, bound=_BOUND % 'N=2 expectations, <=1 of 2 sequences each', min_reach=0)
 ob(name='world.queries', kind='BL', props=['C03', 'C06', 'C07'], unit='world_ii', harness='h_world.c', entry='w_queries',
    variants=world_variants(3, 1), unwind=10, timeout=900, bound=_BOUND % 'N=3 expectations, <=1 of 2 sequences each', min_reach=0)
+
+# ----------------------------------------------------------------------------------------------
+# unit lifetime: deathwatched<T>, lifetime_monitor, null_on_move (C13; C05 destruction; C14)
+UNITS['lifetime'] = {
+    'opaque': [' get_lock$'], 'dyn_types': [r'^sequence_handler<[01]>$', r'^lifetime_monitor$'],
+    'roots': {
+        'DW_DTOR': 'dtor:^deathwatched<vp_vp_D>$', 'DW': 'rec:^deathwatched<vp_vp_D>$', 'LM': 'rec:^lifetime_monitor$',
+        'EXPECT_DEATH': '12deathwatchedIN14vp_trompeloeil4vp_DEE24trompeloeil_expect_death', 'LM_CTOR': '16lifetime_monitorC1IN14vp_trompeloeil4vp_DEEE',
+        'LM_DTOR': 'dtor:^lifetime_monitor$', 'NOTIFY': '16lifetime_monitor6notifyEv', 'LM_IS_SATISFIED': '16lifetime_monitor12is_satisfiedEv', 'LM_IS_SATURATED': '16lifetime_monitor12is_saturatedEv',
+        'DW_ASSIGN': '12deathwatchedIN14vp_trompeloeil4vp_DEEaSERKS3_', 'DW_COPY': '12deathwatchedIN14vp_trompeloeil4vp_DEEC1IJRS3_EvEE',
+        'DW_MOVE': '12deathwatchedIN14vp_trompeloeil4vp_DEEC1IJS3_EvEE', 'DW_CTOR': '12deathwatchedIN14vp_trompeloeil4vp_DEEC1IJEvEE',
+        'NOM_ASSIGN_COPY': '12null_on_moveINS_16lifetime_monitorEEaSERKS2_', 'NOM_ASSIGN_PTR': '12null_on_moveINS_16lifetime_monitorEEaSEPS1_',
+        'SH0': 'rec:^sequence_handler<0>$', 'SH1': 'rec:^sequence_handler<1>$', 'SM': 'rec:^sequence_matcher$', 'ST': 'rec:^sequence_type$',
+        'SH0_CTOR': '16sequence_handlerILm0EEC1',
+    },
+    'stub_aliases': {
+        'VS_SHB_CAN_BE_CALLED': r'^vs_.*sequence_handler_base13can_be_called', 'VS_SHB_RETIRE_PRED': r'^vs_.*sequence_handler_base19retire_predecessors',
+        'VS_SHB_VALIDATE': r'^vs_.*sequence_handler_base8validate', 'VS_DTOR_SHB': '^vs_dtor_S_sequence_handler_base$', 'VS_DTOR_SH0': '^vs_dtor_S_sequence_handler_0$',
+    },
+}
+_SEQ3 = [('noseq', {'W_SEQ': 0}), ('first', {'W_SEQ': 1}), ('behind', {'W_SEQ': 2})]
+ob(name='lifetime.unexpected_destruction', kind='FC+', props=['C13', 'C14', 'C15'], unit='lifetime', harness='h_lifetime.c', entry='l_unexpected', unwind=4)
+ob(name='lifetime.expected_destruction', kind='FC+', props=['C05', 'C06', 'C13', 'C14', 'C15'], unit='lifetime', harness='h_lifetime.c', entry='l_expected', variants=_SEQ3, unwind=4, min_reach=0,
+   bound='loop-free after fixing the heap shape: monitor unsequenced / first in line / behind one pending predecessor with free bounds and count')
+ob(name='lifetime.requirement_released_first', kind='FC+', props=['C13', 'C14', 'C15'], unit='lifetime', harness='h_lifetime.c', entry='l_released_first', variants=_SEQ3[:2], unwind=4, min_reach=0)
+ob(name='lifetime.two_requirements', kind='FC+', props=['C13', 'C14'], unit='lifetime', harness='h_lifetime.c', entry='l_two_monitors', unwind=4)
+ob(name='lifetime.copy_move_assign', kind='FC+', props=['C13', 'C14'], unit='lifetime', harness='h_lifetime.c', entry='l_copy_move_assign', unwind=4)
